@@ -146,4 +146,3 @@ package serveruser
 //@   noframe
 //@   may_panic
 //@   ensures [C05] err == nil ==> user != nil && ((user.HashedPassword != nil && *user.HashedPassword != "") || (user.Password != nil && *user.Password != ""))
-
